@@ -628,6 +628,81 @@ func (n *c45Net) tamper(rt *rapid.T, p *c45Pkt, forceRegion string) {
 	}
 }
 
+// impersonate: an attacker who does not hold x's key intercepts y's WHOAREYOU for
+// x and answers it with a handshake packet claiming to come from x (x's id and
+// x's genuine, public record; identity proof and ECDH made with the attacker's key).
+func (n *c45Net) impersonate(rt *rapid.T) bool {
+	var cand []*c45Pkt
+	for _, p := range n.pool {
+		if p.kind != "whoareyou" {
+			continue
+		}
+		if pd := n.pendValid(p.from, p.to); pd != nil && pd.ch == p.ch {
+			cand = append(cand, p)
+		}
+	}
+	if len(cand) == 0 {
+		return false
+	}
+	p := rapid.SampledFrom(cand).Draw(rt, "impersonateWhich")
+	y, x := p.from, p.to
+	attacker := n.prngKey()
+	fake := NewCodec(x.ln, attacker, &n.clock, nil)
+	_, _, dec, err := fake.Decode(p.data, y.addr)
+	w, ok := dec.(*Whoareyou)
+	if err != nil || !ok {
+		n.fatalf("VERIF-HARNESS-BUG: attacker cannot read the WHOAREYOU: %v %T", err, dec)
+	}
+	w.Node = x.callNode[y]
+	msg := c45GenMsg(rt, n)
+	enc, _, err := fake.Encode(y.id, y.addr, msg, w)
+	if err != nil {
+		n.fatalf("VERIF-HARNESS-BUG: attacker cannot encode a handshake: %v", err)
+	}
+	n.adversarial("impersonate", y, bytes.Clone(enc), x.addr, &c45Pkt{from: x, to: y, kind: "handshake", data: enc})
+	return true
+}
+
+// forgeIdentity: the attacker answers y's WHOAREYOU for x with a handshake packet
+// built from the wire specification (c45_wire_test.go) that claims x's id as
+// source but proves the attacker's own identity: its own signed record (newer
+// than anything y knows) and an identity proof made with its own key.
+func (n *c45Net) forgeIdentity(rt *rapid.T) bool {
+	var cand []*c45Pkt
+	for _, p := range n.pool {
+		if p.kind != "whoareyou" {
+			continue
+		}
+		if pd := n.pendValid(p.from, p.to); pd != nil && pd.ch == p.ch {
+			cand = append(cand, p)
+		}
+	}
+	if len(cand) == 0 {
+		return false
+	}
+	p := rapid.SampledFrom(cand).Draw(rt, "forgeWhich")
+	y, x := p.from, p.to
+	attacker := n.prngKey()
+	var rec enr.Record
+	rec.SetSeq(1 << 62)
+	rec.Set(enr.IPv4{6, 6, 6, 6})
+	rec.Set(enr.UDP(666))
+	if err := enode.SignV4(&rec, attacker); err != nil {
+		n.fatalf("VERIF-HARNESS-BUG: SignV4: %v", err)
+	}
+	recEnc, _ := rlp.EncodeToBytes(&rec)
+	w, why := c45Unmask(x.id, p.data)
+	if w == nil {
+		n.fatalf("VERIF-HARNESS-BUG: attacker cannot unmask the WHOAREYOU: %s", why)
+	}
+	enc, _ := c45ForgeHandshake(n, w.ad(), x.id, y, attacker, recEnc, &Ping{ReqID: []byte{6}, ENRSeq: 1 << 62})
+	n.adversarial("forge-identity", y, enc, x.addr, &c45Pkt{from: x, to: y, kind: "handshake", data: enc})
+	if sn := y.c.SessionNode(x.id, x.addr); sn != nil && sn.ID() != x.id {
+		n.fatalf("forge-identity: %s now holds node %v in its session for %s", y.name, sn.ID(), x.name)
+	}
+	return true
+}
+
 // pickAuthenticated prefers packets whose content is protected by a session
 // (message and handshake packets) as targets of adversarial steps.
 func (n *c45Net) pickAuthenticated(rt *rapid.T, label string) *c45Pkt {
@@ -685,7 +760,14 @@ func (n *c45Net) misdeliver(rt *rapid.T, p *c45Pkt) {
 
 var c45Actions = []string{"roundtrip", "roundtrip", "roundtrip", "roundtrip", "roundtrip", "send", "send", "send",
 	"deliver", "deliver", "deliver", "deliver", "deliver", "deliver", "replay", "reset", "reset", "clock", "bump",
-	"tamper", "tamper", "tamper", "misdeliver", "misdeliver"}
+	"tamper", "tamper", "tamper", "misdeliver", "misdeliver", "impersonate"}
+
+func (n *c45Net) attackChallenge(rt *rapid.T) bool {
+	if rapid.Bool().Draw(rt, "forgeIdentity") {
+		return n.forgeIdentity(rt)
+	}
+	return n.impersonate(rt)
+}
 
 func c45ExchangeProp(st *vs.S, honestOnly bool) func(rt *rapid.T) {
 	return func(rt *rapid.T) {
@@ -701,7 +783,7 @@ func c45ExchangeProp(st *vs.S, honestOnly bool) func(rt *rapid.T) {
 		_ = trace
 		for i := 0; i < steps; i++ {
 			act := rapid.SampledFrom(c45Actions).Draw(rt, "action")
-			if honestOnly && (act == "tamper" || act == "misdeliver") {
+			if honestOnly && (act == "tamper" || act == "misdeliver" || act == "impersonate") {
 				act = "deliver"
 			}
 			var undelivered []*c45Pkt
@@ -731,6 +813,10 @@ func c45ExchangeProp(st *vs.S, honestOnly bool) func(rt *rapid.T) {
 						// the challenge is modified in flight; the requester answers what it received
 						n.tamper(rt, last, rapid.SampledFrom([]string{"authdata", "version", "authdata"}).Draw(rt, "challengeRegion"))
 						break
+					}
+					if last.kind == "handshake" && !honestOnly && rapid.IntRange(0, 7).Draw(rt, "tamperHandshake") == 0 {
+						// a modified copy of the handshake packet arrives first
+						n.tamper(rt, last, rapid.SampledFrom([]string{"message", "authdata", "version"}).Draw(rt, "handshakeRegion"))
 					}
 					n.deliver(last)
 				}
@@ -776,6 +862,26 @@ func c45ExchangeProp(st *vs.S, honestOnly bool) func(rt *rapid.T) {
 				n.logf("%s record seq now %d", x.name, x.ln.Node().Seq())
 			case "tamper":
 				n.tamper(rt, n.pickAuthenticated(rt, "tamperWhich"), "")
+			case "impersonate":
+				if !n.attackChallenge(rt) {
+					// no challenge is pending: create one (request without session, challenge not yet answered)
+					x, y := a, b
+					if rapid.Bool().Draw(rt, "dirBA") {
+						x, y = b, a
+					}
+					if n.sess[x][y] != 0 {
+						x.c.sc.sessions = lru.NewBasicLRU[sessionID, *session](1024)
+						for _, z := range n.peers {
+							n.sess[x][z] = 0
+						}
+						n.resets++
+						n.resetSeen = n.handshakes > 0
+						n.logf("reset sessions of %s", x.name)
+					}
+					n.send(x, y, c45GenMsg(rt, n))
+					n.deliver(n.pool[len(n.pool)-1])
+					n.attackChallenge(rt)
+				}
 			case "misdeliver":
 				n.misdeliver(rt, n.pickAuthenticated(rt, "misWhich"))
 			}
@@ -837,6 +943,57 @@ func TestVerifC45Exchange(t *testing.T) {
 func TestVerifC45Honest(t *testing.T) {
 	st := vs.New("C45", t)
 	vs.Check(t, 0.5, c45ExchangeProp(st, true))
+}
+
+// TestVerifC45SpecHandshake: a handshake packet built from the wire specification
+// alone (c45ForgeHandshake with the requester's real key and record) is accepted,
+// and the reply under the new session opens with the spec-derived recipient key.
+// This also shows that the forged-identity packets of TestVerifC45Exchange are
+// refused for their identity, not for their form.
+func TestVerifC45SpecHandshake(t *testing.T) {
+	st := vs.New("C45", t)
+	vs.Check(t, 0.15, func(rt *rapid.T) {
+		n := c45NewNet(rt)
+		c := st.Case()
+		a, b := n.peers[0], n.peers[1]
+		msg := c45GenMsg(rt, n)
+		n.send(a, b, msg)
+		n.deliver(n.pool[0])
+		if len(n.pool) != 2 || n.pool[1].kind != "whoareyou" {
+			n.fatalf("VERIF-HARNESS-BUG: no challenge after an undecryptable packet")
+		}
+		wp := n.pool[1]
+		w, why := c45Unmask(a.id, wp.data)
+		if w == nil {
+			n.fatalf("wire observer: WHOAREYOU: %s", why)
+		}
+		self := a.ln.Node()
+		var rec []byte
+		if wp.ch.RecordSeq < self.Seq() {
+			rec, _ = rlp.EncodeToBytes(self.Record())
+		}
+		enc, keys := c45ForgeHandshake(n, w.ad(), a.id, b, a.key, rec, msg)
+		src, node, dec, err := b.c.Decode(enc, a.addr)
+		if err != nil || src != a.id || node == nil || node.ID() != a.id || !c45MsgEqual(dec, msg) {
+			n.fatalf("spec-built handshake packet %x from A: err=%v src=%v node=%v dec=%#v (sent %#v)", enc, err, src, node, dec, msg)
+		}
+		reply := c45GenMsg(rt, n)
+		renc, rnonce, err := b.c.Encode(a.id, a.addr, reply, nil)
+		if err != nil {
+			n.fatalf("B.Encode(reply): %v", err)
+		}
+		rw, why := c45Unmask(a.id, renc)
+		if rw == nil || rw.flag != 0 || !bytes.Equal(rw.nonce, rnonce[:]) || !bytes.Equal(rw.auth, b.id[:]) {
+			n.fatalf("wire observer: reply packet %x: %s", renc, why)
+		}
+		pt, ok := c45GCMOpen(keys[16:32], rw.nonce, rw.msg, rw.ad())
+		if !ok || !bytes.Equal(pt, c45RefMessage(reply)) {
+			n.fatalf("reply %x does not open with the spec-derived recipient key (ok=%v): %x want %x", renc, ok, pt, c45RefMessage(reply))
+		}
+		c.Classf("spec-handshake record=%v", rec != nil)
+		c.Classf("msg-kind-%d", msg.Kind())
+		c.NonTrivial(true, fmt.Sprintf("%x", enc))
+	})
 }
 
 // FuzzVerifC45Exchange: the exchange property driven by the native fuzzer.
